@@ -83,6 +83,24 @@ def run(ctx, out):
         for kind in KINDS:
             for k in range(reps):
                 jobs.append({"scn": scn, "script": [], "seed": ctx.seed + 3000 + 97 * i + 7 * k + KINDS.index(kind), "test_mode": True, "qmax": 100, "fault": kind, "req_variant": ["conn_error", "api_error", "runner", "unsuccessful"][(i + k) % 4], "fault_delay": rnd.randint(4, 70)})
+    # directed: a lenient and a strict task in ONE executor (same worker, same parallel element); the strict task's request fails
+    def _t(i, clients, reqs, cp=False):
+        return {"id": i, "clients": clients, "reqs": reqs, "cp": cp, "acp": False}
+
+    shared = [
+        {"sched": [{"tasks": [_t(1, 1, 2, True), _t(2, 1, -1)], "cap": 0}, {"tasks": [_t(3, 2, 1)], "cap": 0}], "workerOf": [1, 1], "W": 1},
+        {"sched": [{"tasks": [_t(1, 1, 3), _t(2, 1, 3)], "cap": 0}], "workerOf": [1, 1], "W": 1},
+        {"sched": [{"tasks": [_t(1, 1, 2), _t(2, 2, 2)], "cap": 0}, {"tasks": [_t(3, 1, 1)], "cap": 0}], "workerOf": [1, 1, 2], "W": 2},
+    ]
+    for i, scn in enumerate(shared):
+        for k, variant in enumerate(["api_error", "unsuccessful", "api_error", "unsuccessful"]):
+            jobs.append({"scn": scn, "script": [], "seed": ctx.seed + 9100 + 10 * i + k, "test_mode": True, "qmax": 100, "fault": "req", "req_variant": variant, "fault_delay": 8 + 5 * k, "lenient": [1]})
+    # tasks that declare ignore-response-error-level: non-fatal next to strict ones: in every parallel element with >= 2 tasks the
+    # FIRST task is lenient in half of the races (a non-fatal request error is then injected only into the strict tasks, where
+    # on-error=abort must still fail the race)
+    for n, job in enumerate(jobs):
+        if n % 2 == 0 and job.get("fault") == "req" and "lenient" not in job:
+            job["lenient"] = [e["tasks"][0]["id"] for e in job["scn"]["sched"] if len(e["tasks"]) >= 2]
     stats, index = rc.run_races(ctx, out, jobs, CLAUSES, "c09")
     out.extra["races_run"] = len(jobs)
     out.extra["faults_fired"] = stats.get("faults_fired", 0)
